@@ -52,6 +52,8 @@ class C14(Prop):
 
     def gen(self, rng, tier):
         keys = ["AAA", "BBB", "CCC", "RATE", "ESH19", "ESM19", "ESU19", "@es", "@zn"]
+        if rng.random() < 0.15:
+            return self.gen_chain_first(rng)
         nk = rng.randint(1, 5)
         use = rng.sample(keys, nk)
         n = rng.randint(3, 40 if tier == "quick" else 90)
@@ -84,6 +86,40 @@ class C14(Prop):
                     ops.append([what, qk, rng.choice([-1, 0, 1])])
                 else:
                     ops.append([what, qk])
+        return dict(ops=ops)
+
+    def gen_chain_first(self, rng):
+        """The book of a lead contract is first touched through the *chain* key; the chain then rolls; the old
+        contract is then addressed by its own key, by a plain string and through the chain again."""
+        leads = ["ESH19", "ESM19", "ESU19"]
+        start = rng.choice([0, 0, 80, 170])          # days after 2019-01-01: before the H / M / U roll
+        t = T0 + start * DAY + rng.randint(0, 20) * DAY
+        ops = [["now", t]]
+
+        def quote(k):
+            b = Fraction(rng.randint(8000, 12000), 4)
+            return ["q", k, t, fr(b), fr(b + Fraction(rng.randint(0, 8), 4))]
+
+        first = rng.choice(["q", "book", "mid"])
+        ops.append(quote("@es") if first == "q" else [first, "@es"])
+        for _ in range(rng.randint(0, 4)):
+            t += rng.choice([1, 3600_000_000, DAY])
+            k = rng.choice(["@es"] + leads)
+            ops.append(quote(k) if rng.random() < 0.6 else [rng.choice(["book", "mid"]), k])
+        # roll: move the clock past one (sometimes two) last-trading dates
+        t += rng.choice([75, 95, 120, 190]) * DAY
+        ops.append(["now", t])
+        for _ in range(rng.randint(3, 10)):
+            t += rng.choice([0, 1, 3600_000_000, DAY])
+            k = rng.choice(["@es"] + leads + ["str:" + x for x in leads])
+            r = rng.random()
+            if r < 0.45 and not k.startswith("str:"):
+                ops.append(quote(k))
+            elif r < 0.5 and not k.startswith("str:"):
+                ops.append(["d", k, t])
+            else:
+                what = rng.choice(["book", "book", "mid", "acq", "liq"])
+                ops.append([what, k, rng.choice([-1, 1])] if what in ("acq", "liq") else [what, k])
         return dict(ops=ops)
 
     def mutate(self, case, rng):
